@@ -2,8 +2,9 @@
    Input: [driver (0 = io_uring, 1 = polling); then triples (kind, key, arg)].
    Output: [1; number of keys; all storage freed?] when every event is a step of
    the model, else [0; index of the first rejected event; its kind];
-   [3; index; kind] when the waker discipline (ResultSlot.v) rejects. *)
-From Compio.Model Require Import Base DriverKeys ResultSlot.
+   [3; index; kind] when the waker discipline (ResultSlot.v) rejects,
+   [4; index; kind] when the polling driver's queue model (PollDrv.v) rejects. *)
+From Compio.Model Require Import Base DriverKeys ResultSlot PollDrv.
 
 Definition dec_ev (kind key arg : N) : ev :=
   (* an id that is not a small key number (the harness prints 9999999 for an
@@ -59,7 +60,12 @@ Definition run_drv (l : list N) : list N :=
       | inl s =>
         (* the key model accepts: now the waker discipline of the result slots *)
         match waccept r with
-        | None => [1%N; NN (length (keys s)); if quiescent s then 1%N else 0%N]
+        | None =>
+          (* ... and, on the polling driver, the per-descriptor queues *)
+          match (if N.eqb drv 0 then None else paccept r) with
+          | None => [1%N; NN (length (keys s)); if quiescent s then 1%N else 0%N]
+          | Some i => [4%N; NN i; nth (3 * i) r 0%N]
+          end
         | Some i => [3%N; NN i; nth (3 * i) r 0%N]
         end
       | inr i => [0%N; NN i; nth (3 * i) r 0%N]
